@@ -38,9 +38,76 @@ class Tup:
         return f"Tup{self.items}"
 
 
+def hkey(v):
+    """hashable constant key of a value (ints, strings, tuples of those, NamedTuple objects by
+    field values, canonical keys); raises AnalysisError for non-constants"""
+    if isinstance(v, bool) or v is None or isinstance(v, (str, int)):
+        return v
+    if hasattr(v, "const_key"):
+        return v.const_key
+    if isinstance(v, sp.Basic):
+        if v.is_Integer:
+            return int(v)
+        if v.is_Rational:
+            return v
+        raise AnalysisError(f"non-constant used as a key: {v}")
+    if isinstance(v, Tup):
+        return tuple(hkey(i) for i in v.items)
+    if isinstance(v, Obj) and "__fields__" in v.attrs:
+        return tuple(hkey(v.attrs[f]) for f in v.attrs["__fields__"])
+    raise AnalysisError(f"non-constant used as a key: {type(v).__name__}")
+
+
+class _KeyDict:
+    """mapping keyed by hkey(value) that remembers the original key objects"""
+
+    def __init__(self, init=None):
+        self.m = {}
+        if init:
+            for k, v in (init.items() if hasattr(init, "items") else init):
+                self[k] = v
+
+    def __setitem__(self, k, v):
+        self.m[hkey(k)] = (k, v)
+
+    def __getitem__(self, k):
+        return self.m[hkey(k)][1]
+
+    def __contains__(self, k):
+        try:
+            return hkey(k) in self.m
+        except AnalysisError:
+            return False
+
+    def get(self, k, default=None):
+        return self.m[hkey(k)][1] if k in self else default
+
+    def keys(self):
+        return [k for k, _ in self.m.values()]
+
+    def values(self):
+        return [v for _, v in self.m.values()]
+
+    def items(self):
+        return list(self.m.values())
+
+    def update(self, other):
+        for k, v in (other.items() if hasattr(other, "items") else other):
+            self[k] = v
+
+    def __len__(self):
+        return len(self.m)
+
+    def __iter__(self):
+        return iter(self.keys())
+
+    def __bool__(self):
+        return bool(self.m)
+
+
 class DictV:
     def __init__(self, d=None, default=None):
-        self.d, self.default = dict(d or {}), default
+        self.d, self.default = _KeyDict(d), default
 
 
 class FuncV:
@@ -115,6 +182,21 @@ class Opaque:
 
     def __repr__(self):
         return f"Opaque({self.name})"
+
+
+class EnumV:
+    def __init__(self, cls, name):
+        self.cls, self.name = cls, name
+        self.const_key = ("enum", cls, name)
+
+    def __repr__(self):
+        return f"{self.cls.split(':')[-1]}.{self.name}"
+
+    def __eq__(self, other):
+        return isinstance(other, EnumV) and other.const_key == self.const_key
+
+    def __hash__(self):
+        return hash(self.const_key)
 
 
 class CondV:
@@ -280,6 +362,8 @@ class Ev:
             kind, ref = self.model.resolve_from(v.name, name)
             return self.from_resolution(kind, ref, node, mod)
         if isinstance(v, ClsV):
+            if any(b.endswith("Enum") for b in self.model.bases(v.ref)):
+                return EnumV(v.ref, name)
             owner, f, kind = self.model.find_member(v.ref, name)
             if f is not None and kind in ("classmethod", "staticmethod", "method"):
                 return FuncV(f"{owner.split(':')[0]}:{owner.split(':')[1]}.{name}", bound=v if kind == "classmethod" else None)
@@ -314,10 +398,11 @@ class Ev:
             oref = f"{owner.split(':')[0]}:{owner.split(':')[1]}.{name}"
             omod = self.model.mods[owner.split(":")[0]]
             if kind in ("property", "lazy"):
-                key = (id(obj), oref)
-                if key not in self.cache:
-                    self.cache[key] = self.call_def(f, omod, oref, [obj], {})
-                return self.cache[key]
+                pc = obj.__dict__.setdefault("_prop_cache", {})
+                key = (id(self), oref)
+                if key not in pc:
+                    pc[key] = (self, self.call_def(f, omod, oref, [obj], {}))
+                return pc[key][1]
             if kind == "method":
                 return FuncV(oref, bound=obj)
             if kind == "staticmethod":
@@ -630,22 +715,22 @@ class Ev:
 
     def compare(self, op, a, b, n, mod):
         def const(v):
-            if isinstance(v, (str, bool)) or v is None or hasattr(v, "const_key"):
+            if isinstance(v, LibV):
                 return True
             if is_sym(v) and v.is_number:
                 return True
-            if isinstance(v, Tup):
-                return all(const(i) for i in v.items)
-            return False
+            try:
+                hkey(v)
+                return True
+            except AnalysisError:
+                return False
 
         def py(v):
-            if hasattr(v, "const_key"):
-                return v.const_key
-            if is_sym(v):
+            if isinstance(v, LibV):
+                return ("lib", v.name)
+            if is_sym(v) and v.is_number and not v.is_Integer:
                 return v
-            if isinstance(v, Tup):
-                return tuple(py(i) for i in v.items)
-            return v
+            return hkey(v)
 
         if isinstance(op, (ast.Is, ast.IsNot)):
             r = (a is b) or (a is None and b is None)
@@ -662,7 +747,7 @@ class Ev:
             elif isinstance(b, Tup) and const(a) and const(b):
                 r = py(a) in [py(i) for i in b.items]
             elif isinstance(b, DictV) and const(a):
-                r = py(a) in b.d
+                r = a in b.d
             elif isinstance(b, str) and isinstance(a, str):
                 r = a in b
             else:
@@ -787,6 +872,8 @@ class Ev:
             return v.sym_iter(self, n, mod)
         if isinstance(v, Tup):
             return list(v.items)
+        if isinstance(v, Obj) and "__fields__" in v.attrs:
+            return [v.attrs[f] for f in v.attrs["__fields__"]]
         if isinstance(v, DictV):
             return list(v.d.keys())
         if isinstance(v, str):
@@ -947,10 +1034,22 @@ class Ev:
         return env
 
     def call_def(self, fd, fmod, ref, args, kwargs, closure=None, collect_self=None):
+        def akey(v):
+            try:
+                return hkey(v)
+            except AnalysisError:
+                return ("id", id(v))
+
+        frame = (ref, tuple(akey(a) for a in args), tuple(sorted((k, akey(v)) for k, v in kwargs.items())))
+        stack = self.__dict__.setdefault("stack", [])
+        if frame in stack:
+            # the same function is re-entered with the same constant arguments: unbounded recursion
+            raise RaisedV("RecursionError", ref)
         self.depth += 1
         if self.depth > MAX_DEPTH:
             self.depth -= 1
             raise self.err(f"inlining depth > {MAX_DEPTH} at {ref}")
+        stack.append(frame)
         try:
             self.note_fn(ref)
             env = dict(closure or {})
@@ -972,6 +1071,7 @@ class Ev:
             return None
         finally:
             self.depth -= 1
+            stack.pop()
 
     # ------------------------------------------------------------ statements
     def exec_body(self, stmts, env, mod):
@@ -1342,7 +1442,7 @@ def lib_set(ev, a, k, n, mod):
     items = ev.iterate(a[0], n, mod) if a else []
     out, seen = [], []
     for i in items:
-        kx = tuple(i.items) if isinstance(i, Tup) else getattr(i, "const_key", i)
+        kx = hkey(i)
         if kx not in seen:
             seen.append(kx)
             out.append(i)
@@ -1583,3 +1683,50 @@ LIB.update({
     "numpy.allclose": lib_allclose_unknown, "re.search": lib_re_search, "re.match": lib_re_search,
     "getattr": lib_getattr,
 })
+
+
+def lib_type(ev, a, k, n, mod):
+    v = a[0]
+    if isinstance(v, bool):
+        return LibV("builtins.bool")
+    if isinstance(v, str):
+        return LibV("builtins.str")
+    if is_sym(v) and v.is_Integer:
+        return LibV("builtins.int")
+    if is_sym(v) and v.is_Rational:
+        return LibV("builtins.float")
+    if isinstance(v, Tup):
+        return LibV("builtins." + ("tuple" if v.kind == "tuple" else v.kind))
+    if v is None:
+        return LibV("builtins.NoneType")
+    raise ev.err("type() of a non-constant", n, mod)
+
+
+def lib_dict(ev, a, k, n, mod):
+    d = DictV()
+    if a:
+        src_ = a[0]
+        if isinstance(src_, DictV):
+            d.d.update(src_.d)
+        else:
+            for it in ev.iterate(src_, n, mod):
+                kk, vv = ev.iterate(it, n, mod)
+                d.d[kk] = vv
+    for kk, vv in k.items():
+        d.d[kk] = vv
+    return d
+
+
+LIB.update({"type": lib_type, "dict": lib_dict})
+
+
+def _minmax(fn):
+    def f(ev, a, k, n, mod):
+        items = ev.iterate(a[0], n, mod) if len(a) == 1 else list(a)
+        if all(is_sym(i) and i.is_number for i in items):
+            return fn(items)
+        raise ev.err("min()/max() of non-constants", n, mod)
+    return f
+
+
+LIB.update({"min": _minmax(min), "max": _minmax(max)})
